@@ -328,6 +328,33 @@ def hextab(ctx, pid):
             ctx.ok(c, f.loc(), "%d return paths: every returned value is the one the reference table gives for the path's conditions" % rows)
 
 
+@rule("DECODE", ["C01", "C02", "C03", "C08"])
+def decode(ctx, pid):
+    """decode_node, through which every stored reference becomes a node: blank stays blank, an embedded node
+    (a list) is returned as it is, anything else is RLP-decoded."""
+    f = ctx.P.func(NODES + "decode_node")
+    x = ("p", f.params[0])
+    rows = set()
+    for p, st in pq.states(ctx, f):
+        if p.exit[0] != "return":
+            continue
+        rels, truth = _log(st)
+        blank = None
+        for op, l, r in rels:
+            if (l, r) in ((x, BLANK), (BLANK, x)) and op in ("==", "!="):
+                blank = op == "=="
+        il = truth.get(("call", "ext:isinstance", (x, ("g", "list")), ()))
+        case = "blank" if blank else ("list" if il else ("other" if il is False and blank is False else "?"))
+        rows.add((case, st.ret))
+    dec = {r for c_, r in rows if c_ == "other"}
+    okdec = len(dec) == 1 and next(iter(dec))[0] == "call" and next(iter(dec))[1].startswith("ext:rlp") and next(iter(dec))[2] == (x,)
+    c = "table:decode_node"
+    if {(c_, r) for c_, r in rows if c_ != "other"} == {("blank", BLANK), ("list", x)} and okdec:
+        ctx.ok(c, f.loc(), "b'' -> b''; a list -> itself; otherwise rlp.decode(reference)")
+    else:
+        ctx.bad(c, f.loc(), "decode_node behaves as %s; expected {blank: b'', list: the list itself, otherwise: rlp.decode(x)}" % sorted((c_, tstr(r)[:40]) for c_, r in rows))
+
+
 # ---------------------------------------------------------------------------
 def _log(st):
     rels, truth = [], {}
